@@ -65,10 +65,9 @@ def check_parse(inp):
         return None                     # nesting too deep for the (recursive) harness walkers
     except Exception as e:
         return Failure('parse', inp, 'a formula', 'returned %r (%s)' % (f, e))
-    for node in fm.all_nodes(f):
-        if fm.module_lang(node) != logic:
-            return Failure('parse', inp, 'a formula of %s' % logic,
-                           'contains a %s.%s node' % (type(node).__module__, type(node).__name__))
+    bad = fm.foreign_node(f, logic)
+    if bad:
+        return Failure('parse', inp, 'a formula of %s' % logic, bad)
     if fm.kind(logic, t) is None:
         return Failure('parse', inp, 'a formula of %s' % logic, list(t),
                        'the returned tree is not a %s formula as documented' % logic)
